@@ -167,7 +167,19 @@ class Roles:
         return self.public("gamma::inverse_gamma_lr")
 
     def build_sampler(self):
-        return self.public("Graph::build_sampler")
+        """The function that builds the sampler: the public anchor, or — when that only delegates (`fn build_sampler(..) { Inner::make(..) }`,
+        result returned unchanged, same return type) — the end of the delegation chain."""
+        def go():
+            cur = self.public("Graph::build_sampler")
+            seen = set()
+            for _ in range(3):
+                cands = [(bi, t, cb) for bi, t, cb in self.local_callees(cur) if returns_unchanged(cur, t) and cb.local_ty(0) == cur.local_ty(0)]
+                if len(cands) != 1 or cands[0][2].key in seen or len(list(self.local_callees(cur))) != 1:
+                    break
+                seen.add(cur.key)
+                cur = cands[0][2]
+            return cur
+        return self._memoize("build_sampler", go)
 
     def get_dimension(self):
         return self.public("SampleGenerator::get_dimension")
